@@ -9,6 +9,7 @@ import (
 	"encoding/json"
 	"fmt"
 	"hash/fnv"
+	"reflect"
 	"sort"
 	"time"
 )
@@ -19,6 +20,9 @@ type Event struct {
 	Op   string `json:"op"`
 	Args []any  `json:"a,omitempty"`
 	Res  []any  `json:"r,omitempty"`
+	// Obj identifies the object the operation acts on (OpOn): objects are
+	// numbered 1, 2, ... in the order in which they are first touched; 0 = none.
+	Obj int `json:"o,omitempty"`
 }
 
 type pending struct {
@@ -47,6 +51,7 @@ type Sched struct {
 	// Describe turns an operation argument (e.g. an Envelope) into something
 	// printable and comparable.
 	Describe func(any) any
+	objs     map[uintptr]int
 }
 
 // Active is the execution in progress, nil when code runs unmanaged.
@@ -106,6 +111,42 @@ func Op(op string, guard func() bool, args ...any) {
 	g.pend = nil
 	s.begin(g, op, args)
 }
+
+// OpOn is Op for an operation on the object obj (a pointer): the event also
+// records which object it was.  The object id is not part of the goroutine's
+// history hash, so fingerprints are the same as with Op.
+func OpOn(obj any, op string, guard func() bool, args ...any) {
+	s := Active
+	if s == nil || s.cur == nil {
+		return
+	}
+	Op(op, guard, args...)
+	if n := len(s.Trace); n > 0 {
+		s.Trace[n-1].Obj = s.objID(obj, true)
+	}
+}
+
+func (s *Sched) objID(obj any, create bool) int {
+	v := reflect.ValueOf(obj)
+	if !v.IsValid() || v.Kind() != reflect.Pointer || v.IsNil() {
+		return 0
+	}
+	p := v.Pointer()
+	if id, ok := s.objs[p]; ok {
+		return id
+	}
+	if !create {
+		return 0
+	}
+	if s.objs == nil {
+		s.objs = map[uintptr]int{}
+	}
+	s.objs[p] = len(s.objs) + 1
+	return s.objs[p]
+}
+
+// ObjID returns the id under which operations on obj were recorded, 0 if none was.
+func (s *Sched) ObjID(obj any) int { return s.objID(obj, false) }
 
 func (s *Sched) describe(v any) any {
 	if l, ok := v.([]any); ok {
